@@ -79,6 +79,12 @@ theorem handleDisconnect_addOld (w : World) (o : List String) :
 theorem discFail_addOld (w : World) (o : List String) (ctx : StepCtx) :
     (w.addOld o).discFail ctx = (w.discFail ctx).addOld o := by
   unfold World.discFail; split <;> rfl
+theorem failStep_addOld (w : World) (o : List String) (ctx : StepCtx) (st : Outbound.Step) :
+    (w.addOld o).failStep ctx st = (w.failStep ctx st).addOld o := by
+  cases st with
+  | retained id off len s => exact discFail_addOld w o ctx
+  | control a s => rfl
+  | release id rc s => rfl
 theorem finishOp_addOld (w : World) (o : List String) (n : String) (op : Op) :
     (w.addOld o).finishOp n op = (w.finishOp n op).addOld o := rfl
 theorem setWritten_addOld (w : World) (o : List String) (pkt : Flushed) (a c : Nat) :
@@ -275,7 +281,7 @@ theorem fstep_ps (fuel : Nat) (ih : FrameM fuel) : ∀ w ctx step now o,
     performStep (fuel + 1) (World.addOld w o) ctx step now =
       (performStep (fuel + 1) w ctx step now).addOld o := by
   intro w ctx step now o
-  simp only [performStep, prepareStep_addOld, addOld_live, discFail_addOld, finishErr_addOld, ih.sr, ih.dsf, ih.dsw]
+  simp only [performStep, prepareStep_addOld, addOld_live, discFail_addOld, failStep_addOld, finishErr_addOld, ih.sr, ih.dsf, ih.dsw]
   cases prepareStep w step with
   | fail e => rfl
   | done => rfl
